@@ -99,19 +99,21 @@ func avoid(id string) bool {
 
 // Fault kinds.
 const (
-	kUnparsable = "unparsable"     // string that does not parse into the number/bool/duration/regexp expected
-	kRange      = "range"          // number outside the range of the target
-	kWrongCont  = "wrong-type"     // object or list where a primitive is expected
-	kWrongPrim  = "wrong-type-obj" // primitive where an object (struct, map, list of objects) is expected
-	kRef        = "reference"      // ${name} that does not resolve (VarExp)
-	kValidator  = "validator"      // a validate tag the (unchanged) setting fails
-	kRequired   = "required"       // a `required` tag on a setting that is removed (or nil)
-	kArrayLen   = "array-length"   // list whose length differs from the fixed array length
-	kDefault    = "default"        // setting removed whose struct default fails Validate()
-	kNone       = "none"           // the type offers no place for a fault (discarded)
+	kUnparsable = "unparsable"      // string that does not parse into the number/bool/duration/regexp expected
+	kRange      = "range"           // number outside the range of the target
+	kWrongCont  = "wrong-type"      // object or list where a primitive is expected
+	kWrongPrim  = "wrong-type-obj"  // primitive where an object (struct, map, list of objects) is expected
+	kRef        = "reference"       // ${name} that does not resolve (VarExp)
+	kValidator  = "validator"       // a validate tag the (unchanged) setting fails
+	kRequired   = "required"        // a `required` tag on a setting that is removed (or nil)
+	kArrayLen   = "array-length"    // list whose length differs from the fixed array length
+	kDefault    = "default"         // setting removed whose struct default fails Validate()
+	kEmptyList  = "empty-list"      // a nonzero/required tag on a list of objects that loses all its elements (the list is still there)
+	kStructVal  = "validate-struct" // a present struct section one setting of which makes its Validate() fail
+	kNone       = "none"            // the type offers no place for a fault (discarded)
 )
 
-var allKinds = []string{kUnparsable, kRange, kWrongCont, kWrongPrim, kRef, kValidator, kRequired, kArrayLen, kDefault}
+var allKinds = []string{kUnparsable, kRange, kWrongCont, kWrongPrim, kRef, kValidator, kRequired, kArrayLen, kDefault, kEmptyList, kStructVal}
 
 // Case is a valid (type, value) pair plus one fault.
 type Case struct {
@@ -134,6 +136,7 @@ type Case struct {
 	GIdx    bool      `json:"gidx,omitempty"`    // getter: address a list element as (name of the list, idx) instead of by a numeric last segment
 	SetMeta string    `json:"setmeta,omitempty"` // Inject=set, fault kinds that store a value: "" the Set* call names the same source as the configuration | other: another source | none: no MetaData
 	Outer   bool      `json:"outer,omitempty"`   // Move != "": the configuration merged into was loaded from another source
+	Reloc   *Reloc    `json:"reloc,omitempty"`   // the loaded section around the fault is moved (Child/captured + SetChild/Merge) before the fault is read (reloc_test.go)
 }
 
 const (
@@ -146,6 +149,10 @@ const (
 func storesValue(kind string) bool {
 	return kind == kUnparsable || kind == kRange || kind == kWrongPrim || kind == kWrongCont
 }
+
+// setsValue: injecting the fault through Set* stores a value (at the fault
+// path, or below it for a struct whose Validate() is made to fail).
+func setsValue(kind string) bool { return storesValue(kind) || kind == kStructVal }
 
 // ---------------------------------------------------------------------------
 // fault sites, computed from the type descriptor and the value
@@ -431,10 +438,18 @@ func kindsFor(s *site) []string {
 		if s.node == "cat" && s.direct {
 			ks = append(ks, kDefault)
 		}
+		if s.node == "cat" && !s.absent && s.tv != nil {
+			ks = append(ks, kStructVal)
+		}
 	case "slice":
 		switch e := throughPtr(s.td.Elem); {
 		case e.Kind == "struct", e.Kind == "map", isCat(e):
 			ks = append(ks, kWrongPrim)
+			// nonzero/required are documented for slices ("not empty"); the code applies a field's tags to the
+			// elements read from the configuration as well (reading decision 18), so only lists of objects
+			if s.fd != nil && s.tagOK && s.direct && s.single && !s.absent && s.tv != nil && !s.tv.Nil && len(s.tv.Elems) > 0 {
+				ks = append(ks, kEmptyList)
+			}
 		}
 	case "array":
 		if !s.absent {
@@ -630,6 +645,16 @@ func genCase(t *rapid.T) Case {
 		return c
 	}
 	c.Kind = rapid.SampledFrom(avail).Draw(t, "kind")
+	// faults that are reported for a collection as a whole are possible at few places of a type: prefer them
+	var coll []string
+	for _, k := range avail {
+		if collectionFault(k) {
+			coll = append(coll, k)
+		}
+	}
+	if len(coll) > 0 && rapid.IntRange(0, 3).Draw(t, "collkind") == 0 {
+		c.Kind = rapid.SampledFrom(coll).Draw(t, "ckind")
+	}
 	// prefer places the non-trivial rule is about: deep, or below a list, map or pointer
 	cands := byKind[c.Kind]
 	var deep []int
@@ -666,13 +691,17 @@ func genCase(t *rapid.T) Case {
 	case kArrayLen:
 		c.Shrink = s.td.N > 0 && rapid.Bool().Draw(t, "shrink")
 		c.Payload = gen.Uint(1)
+	case kEmptyList:
+		c.Tag = rapid.SampledFrom([]string{"nonzero", "required"}).Draw(t, "emptytag")
+	case kStructVal:
+		c.Payload = rapid.SampledFrom([]*gen.Tree{gen.Int(0), gen.Uint(0), gen.Str("0")}).Draw(t, "zero").Clone()
 	}
 	// delivery through variable expansion: the faulted value, or a collection
 	// around it, is the result of evaluating a ${...} expression
 	if c.Kind != kRef && rapid.IntRange(0, 9).Draw(t, "deliver") < 4 {
 		d := genDelivery(t, len(c.Path))
-		if (c.Kind == kRequired || c.Kind == kDefault) && d.Up == 0 {
-			d.Up = 1 // a removed setting can only be missing from a delivered collection
+		if (c.Kind == kRequired || c.Kind == kDefault || c.Kind == kEmptyList) && d.Up == 0 {
+			d.Up = 1 // a removed setting can only be missing from a delivered collection (an emptied list is delivered inside one)
 		}
 		if d.Up < len(c.Path) {
 			c.Deliver = d
@@ -683,10 +712,16 @@ func genCase(t *rapid.T) Case {
 	}
 	c.Getter = rapid.Bool().Draw(t, "getter")
 	c.GIdx = rapid.Bool().Draw(t, "gidx")
-	if c.Inject == "set" && storesValue(c.Kind) {
+	if c.Inject == "set" && setsValue(c.Kind) {
 		c.SetMeta = rapid.SampledFrom([]string{"", "other", "other", "none"}).Draw(t, "setmeta")
 	}
 	c.Outer = c.Move != "" && rapid.IntRange(0, 2).Draw(t, "outer") > 0
+	// relocation histories: the loaded section around the fault is moved before the fault is read. A section
+	// whose settings refer to other settings can not be moved to another configuration without changing
+	// what they mean: literal faults only.
+	if c.Deliver == nil && c.Kind != kRef && rapid.IntRange(0, 9).Draw(t, "reloc") < 4 {
+		c.Reloc = genReloc(t, &c)
+	}
 	return c
 }
 
@@ -775,6 +810,20 @@ func injectSet(cfg *ucfg.Config, c *Case, s *site, opts []ucfg.Option) error {
 		return err
 	case kValidator:
 		return nil
+	case kEmptyList:
+		// the elements are removed one by one: what is left is a list with 0 elements
+		for range s.tv.Elems {
+			ok, err := cfg.Remove(name, 0, opts...)
+			if err == nil && !ok {
+				return errDiscard{"list element to remove not found"}
+			}
+			if err != nil {
+				return err
+			}
+		}
+		return nil
+	case kStructVal:
+		return setPrim(cfg, name+".n", -1, c.Payload, opts)
 	}
 	return fmt.Errorf("harness: fault kind %q can not be injected through Set*", c.Kind)
 }
@@ -863,6 +912,21 @@ func injectData(data interface{}, c *Case, s *site) (interface{}, error) {
 		return editData(data, c.Path, func(interface{}, bool) (interface{}, bool) { return nil, true })
 	case kValidator:
 		return data, nil
+	case kEmptyList:
+		var bad error
+		out, err := editData(data, c.Path, func(old interface{}, _ bool) (interface{}, bool) {
+			if _, ok := old.([]interface{}); !ok {
+				bad = errDiscard{fmt.Sprintf("data walk: list is dumped as %T", old)}
+				return old, false
+			}
+			return []interface{}{}, false
+		})
+		if bad != nil {
+			return nil, bad
+		}
+		return out, err
+	case kStructVal:
+		return editData(data, appendPath(c.Path, "n"), func(interface{}, bool) (interface{}, bool) { return c.Payload.Go(), false })
 	}
 	return nil, fmt.Errorf("harness: unknown fault kind %q", c.Kind)
 }
@@ -945,7 +1009,7 @@ func buildCfg(c *Case, s *site, fault bool, art *artifacts) (*ucfg.Config, []str
 	}
 	// the Set* calls and the configuration merged into may name other sources
 	sopts := opts
-	if storesValue(c.Kind) {
+	if setsValue(c.Kind) {
 		switch c.SetMeta {
 		case "other":
 			sopts = []ucfg.Option{ucfg.PathSep("."), ucfg.MetaData(ucfg.Meta{Source: setSource})}
@@ -1222,8 +1286,8 @@ func runCase(c Case, r *runlog.R) error {
 	// way. If the fault is the removal of a required setting, the tag is part
 	// of the valid pair (it applies to every instance of the field).
 	baseT := c.T
-	if c.Kind == kRequired && !s.absent {
-		baseT = td
+	if (c.Kind == kRequired && !s.absent) || c.Kind == kEmptyList {
+		baseT = td // the tag is harmless as long as the setting (the elements) are there
 	}
 	discard := func(err error) bool {
 		if d, ok := err.(errDiscard); ok {
@@ -1289,6 +1353,21 @@ func runCase(c Case, r *runlog.R) error {
 			alts[0].tails = tailsFor(c.Meta, false)
 		}
 	}
+	if c.Kind == kStructVal {
+		// Validate is a method of the struct: the section as a whole is at fault (with the source the section
+		// was loaded from); naming the one setting that was edited (with the source of the call that stored
+		// it) would be as exact
+		nt := tailsFor(c.Meta, demand && c.Deliver == nil)
+		if c.Inject == "set" {
+			switch c.SetMeta {
+			case "other":
+				nt = tailsFor(setSource, true)
+			case "none":
+				nt = tailsFor(c.Meta, false)
+			}
+		}
+		alts = append(alts, expect{want + ".n", nt})
+	}
 	if d := c.Deliver; d != nil {
 		switch d.Mode {
 		case "resolver", "splice":
@@ -1309,20 +1388,49 @@ func runCase(c Case, r *runlog.R) error {
 		if c.Ref != nil {
 			ref = fmt.Sprintf(" ref=%s splice=%v", c.Ref.Shape, c.Ref.Splice)
 		}
-		return fmt.Sprintf("fault %s at '%s' (inject=%s move=%s wrap=%v after=%v meta=%q payload=%v tag=%q delivery=%s%s nores=%v setmeta=%q outer=%v)", c.Kind, want, c.Inject, c.Move, c.Wrap, c.After, c.Meta, show(c.Payload), c.Tag, d, ref, c.NoRes, c.SetMeta, c.Outer)
+		reloc := ""
+		if rl := c.Reloc; rl != nil {
+			reloc = fmt.Sprintf(" relocation: section %d level(s) above the fault, obtained via %q, how=%s where=%q second configuration from %q, attached elsewhere first=%v", rl.Up, rl.Via, rl.How, rl.Where, rl.Target, rl.Pre)
+		}
+		return fmt.Sprintf("fault %s at '%s' (inject=%s move=%s wrap=%v after=%v meta=%q payload=%v tag=%q delivery=%s%s nores=%v setmeta=%q outer=%v)%s", c.Kind, want, c.Inject, c.Move, c.Wrap, c.After, c.Meta, show(c.Payload), c.Tag, d, ref, c.NoRes, c.SetMeta, c.Outer, reloc)
+	}
+
+	// the loaded section around the fault is moved before the fault is read
+	readers := []*ucfg.Config{cfg}
+	relocClasses := map[string]bool{}
+	if c.Reloc != nil {
+		var rerr error
+		if perr := uc.Safe("moving the section", func() error { readers, rerr = relocate(&c, s, cfg, relocClasses); return nil }); perr != nil {
+			return fmt.Errorf("%v\n %s", perr, describe())
+		}
+		if rerr != nil {
+			if discard(rerr) {
+				return nil
+			}
+			return fmt.Errorf("%v\n %s", rerr, describe())
+		}
+		relocTails(&c, alts, demand)
+		cfg = readers[0]
 	}
 
 	typ := targetType(td, c.Wrap && c.Move == "key")
-	out := reflect.New(typ)
-	uerr := uc.Safe("Unpack", func() error { return cfg.Unpack(out.Interface(), opts...) })
-	if uerr == nil {
-		return fmt.Errorf("fault not reported: Unpack returned nil\n %s\n type %v", describe(), typ)
-	}
-	if strings.Contains(uerr.Error(), "panicked") && !isTyped(uerr) {
-		return uerr
-	}
-	if err := checkNamed(uerr, alts); err != nil {
-		return fmt.Errorf("Unpack: %v\n %s\n type %v", err, describe(), typ)
+	var uerr error
+	for i := len(readers) - 1; i >= 0; i-- {
+		through := ""
+		if i > 0 {
+			through = " (through the configuration the section was taken from)"
+		}
+		out := reflect.New(typ)
+		uerr = uc.Safe("Unpack", func() error { return readers[i].Unpack(out.Interface(), opts...) })
+		if uerr == nil {
+			return fmt.Errorf("fault not reported: Unpack%s returned nil\n %s\n type %v", through, describe(), typ)
+		}
+		if strings.Contains(uerr.Error(), "panicked") && !isTyped(uerr) {
+			return uerr
+		}
+		if err := checkNamed(uerr, alts); err != nil {
+			return fmt.Errorf("Unpack%s: %v\n %s\n type %v", through, err, describe(), typ)
+		}
 	}
 
 	// the same fault read through the typed getter of the setting's kind
@@ -1352,7 +1460,7 @@ func runCase(c Case, r *runlog.R) error {
 	}
 
 	moved := c.Move != ""
-	r.NonTrivialIf(len(c.Path) >= 2 || s.ft.list || s.ft.mapk || s.ft.ptr || s.ft.inline || moved || c.Deliver != nil)
+	r.NonTrivialIf(len(c.Path) >= 2 || s.ft.list || s.ft.mapk || s.ft.ptr || s.ft.inline || moved || c.Deliver != nil || c.Reloc != nil)
 	r.Class("kind=" + c.Kind)
 	r.Class("node=" + s.node)
 	r.Class("inject=" + c.Inject)
@@ -1415,6 +1523,18 @@ func runCase(c Case, r *runlog.R) error {
 	}
 	r.ClassIf(c.NoRes && len(art.res) == 0, "read without resolver")
 	r.ClassIf(c.Outer, "merged into a configuration from another source")
+	if rl := c.Reloc; rl != nil {
+		for k := range relocClasses {
+			r.Class(k)
+		}
+		r.Class(fmt.Sprintf("relocation: section %d level(s) above the fault", rl.Up))
+		own := rl.Up == 0
+		r.ClassIf(own, "relocation: the fault is reported for the moved section itself")
+		r.ClassIf(own && c.Meta != "" && demand, "relocation: the fault is reported for the moved section itself, source demanded")
+		r.ClassIf(own && c.Meta != "" && demand && rl.How != "setchild-meta" && rl.How != "merge", "relocation: ... attached by SetChild without MetaData")
+		r.ClassIf(collectionFault(c.Kind), "relocation with a collection-level fault")
+	}
+	r.ClassIf(collectionFault(c.Kind), "collection-level fault")
 	if c.Inject == "set" && storesValue(c.Kind) && c.SetMeta != "" {
 		r.Class("value stored by Set* with source: " + c.SetMeta)
 	}
